@@ -591,14 +591,40 @@ def tail_cases(rng, tier):
         verbs = [r.choice(TAIL_VERBS) for _ in range(r.randint(1, 3))]
         if ifmt == "nidx":
             verbs = [v for v in verbs if v[0] in ("cat", "regularize", "sort-within-records", "fill-empty")] or [["cat"]]
+        # filters are fully streaming too: a record that is dropped produces nothing, the others must still appear at once
+        passes = [True] * n
+        if ifmt != "nidx" and r.chance(0.4):
+            th = r.choice([20, 50, 80])
+            pos = 0
+            # the filter comes first, so that it sees $i as read
+            verbs.insert(pos, r.choice([["filter", "$i >= %d" % th], ["filter", "-x", "$i < %d" % th], ["put", "-q", "$i >= %d { emit $* }" % th] if False else ["filter", "$i >= %d" % th]]))
+            vals = [int(ln.split(",")[-1].split("=")[-1]) if ifmt in ("dkvp", "csv", "csvlite") else None for ln in text.strip().split("\n")[(1 if ifmt in ("csv", "csvlite", "tsv") else 0):]]
+            if ifmt == "tsv":
+                vals = [int(ln.split("\t")[-1]) for ln in text.strip().split("\n")[1:]]
+            if ifmt == "jsonl":
+                vals = [json.loads(ln)["i"] for ln in text.strip().split("\n")]
+            passes = [v >= th for v in vals]
         # arrival plan: whole lines, or random sub-line chunks
         b = text.encode()
         arr = []
-        if r.chance(0.6):
+        roll = r.random()
+        if roll < 0.45:
             pos = 0
             for line in b.split(b"\n")[:-1]:
                 pos += len(line) + 1
                 arr.append(pos)
+        elif roll < 0.7:
+            # bursts: two or three lines arrive in one write
+            pos = 0
+            k = 0
+            for line in b.split(b"\n")[:-1]:
+                pos += len(line) + 1
+                k += 1
+                if k >= r.choice([1, 2, 2, 3]):
+                    arr.append(pos)
+                    k = 0
+            if not arr or arr[-1] != len(b):
+                arr.append(len(b))
         else:
             pos = 0
             while pos < len(b):
@@ -613,7 +639,7 @@ def tail_cases(rng, tier):
             if r.chance(0.3):
                 c["chunk"] = {"max": r.choice([1, 3, 64]), "mode": "random", "seed": r.randint(1, 1 << 30)}
             cfgs.append(c)
-        yield {"kind": "tail", "args": args, "stdin": text, "arrivals": arr, "ofmt": ofmt, "ifmt": ifmt, "in_header_lines": hdr, "configs": cfgs}
+        yield {"kind": "tail", "args": args, "stdin": text, "arrivals": arr, "ofmt": ofmt, "ifmt": ifmt, "in_header_lines": hdr, "configs": cfgs, "passes": passes}
 
 
 # ---------------------------------------------------------------- --seed
